@@ -67,11 +67,11 @@ def decoy():
 
 def BOUND(tier):
     return {
-        'quick': 'words (S D)^2 x 6 perturbations on 6 configurations; '
+        'quick': 'words (S D)^2 x 6 perturbations on 6 configurations, and on two more with all levels moved by +-1e5 mm; '
                  '(S D)^3 on a coarse grid; all step sequences up to length '
                  '4 over 6 workflow steps',
         'thorough': 'words (S D)^m, m<=3, x 6 perturbations on 6 '
-                    'configurations; (S D)^3 on a coarse grid; all step '
+                    'configurations, (S D)^2 with all levels moved by +-1e5 mm; (S D)^3 on a coarse grid; all step '
                     'sequences up to length 5',
     }[tier]
 
@@ -108,6 +108,18 @@ def decimal_max_space(pairs):
                  'mm grid' % pairs, size, decode)
 
 
+def far_space(pairs, config, offset):
+    """The same records a hundred metres above / below the surface (level
+    numbers of 1e5 and, on the 0.3 mm grid, 3e5)"""
+    size, decode_word = events.word_space_events(pairs)
+
+    def decode(i):
+        return {'config': list(config), 'perturb': 'none',
+                'word': decode_word(i), 'level_offset': offset}
+    return Space('workflow/(S D)^%d/levels moved by %g mm/%s Sy=%g dt=%d '
+                 'step=%g' % ((pairs, offset) + tuple(config)), size, decode)
+
+
 def sequence_space(depth):
     """Every sequence of up to `depth` workflow steps (repeats allowed, steps
     that fail are simply failed attempts) from the C20 dataset: the
@@ -137,6 +149,8 @@ def spaces(tier):
         out.append(word_space(2, config))
     out.append(coarse_space(3))
     out.append(decimal_max_space(2 if tier == 'quick' else 3))
+    out.append(far_space(2, CONFIGS[0], 100000.0))
+    out.append(far_space(2, CONFIGS[5], -100000.0))
     out.append(sequence_space(4 if tier == 'quick' else 5))
     if tier == 'thorough':
         for config in CONFIGS:
@@ -429,6 +443,9 @@ def run_case(case):
                 'record_maximum']:
             # rounding moved the maximum: not a member
             return Result(nontrivial=False, outcome='maximum-not-exact')
+    if case.get('level_offset'):
+        ds['level'] = [None if z is None else z + case['level_offset']
+                       for z in ds['level']]
     try:
         connection, errors = events.workflow_db(ds, step)
     except Exception as exc:  # pylint: disable=broad-except
